@@ -44,6 +44,8 @@ func pumpScenarios() []pumpScenario {
 		{Name: "select-ping-select", Queries: []string{"select id, c from t", "\x0e", "select c, id from t"}}, // "\x0e" = COM_PING
 		// prepared statement: "P:<sql>" = COM_STMT_PREPARE, "X" = COM_STMT_EXECUTE of it (binary protocol rows)
 		{Name: "prepare-execute-execute", Queries: []string{"P:select id, c from t", "X", "X"}},
+		// a write through the proxy, then the owner reads it back
+		{Name: "insert-select", Queries: []string{"insert into t (id, plain, c) values (2, 'p2', '" + string(pumpPlain) + "')", "select id, c from t where id = 2"}},
 	}
 }
 
@@ -177,7 +179,7 @@ func (sc pumpScenario) build(env *sess.MyEnv, ks *filesystem.KeyStore, col myche
 			}
 			want := 0
 			for _, q := range sc.Queries {
-				if q != "\x0e" && !strings.HasPrefix(q, "P:") {
+				if strings.HasPrefix(q, "select") || q == "X" {
 					want++
 				}
 			}
